@@ -320,6 +320,7 @@ func (st *State) check(kind, label, prop, src, where, goal string) {
 	if kind == "nopanic" && st.vf.fc != nil && st.vf.fc.NoPanicProp != "" {
 		prop = st.vf.fc.NoPanicProp
 	}
+	cont := goal // what holds when execution continues past this point
 	if kind == "nopanic" && goal != "false" && goal != "true" {
 		if st.vf.fc != nil && st.vf.fc.Flags["recovered"] {
 			// the handler runs under a panic-recovery interceptor: a panic is contained and reported to the caller;
@@ -333,6 +334,13 @@ func (st *State) check(kind, label, prop, src, where, goal string) {
 	if goal == "true" {
 		// trivially true: still count it (discharged syntactically)
 		st.vf.obligs = append(st.vf.obligs, &Oblig{Func: shortFuncName(st.vf.key), Kind: kind, Label: label, Prop: prop, Src: src, Where: where, Goal: goal, Trail: strings.Join(st.trail, " "), Res: SolverResult{Status: "unsat", Solver: "syntactic"}})
+		if kind == "nopanic" && cont != "true" && cont != "false" && !st.facts[cont] {
+			st.assume(cont)
+			if st.facts == nil {
+				st.facts = map[string]bool{}
+			}
+			st.facts[cont] = true
+		}
 		return
 	}
 	o := &Oblig{Func: shortFuncName(st.vf.key), Kind: kind, Label: label, Prop: prop, Src: src, Where: where, Goal: goal, Trail: strings.Join(st.trail, " ")}
@@ -343,15 +351,19 @@ func (st *State) check(kind, label, prop, src, where, goal string) {
 		o.Cover = func() string { return snap.script("false") }
 	}
 	st.vf.obligs = append(st.vf.obligs, o)
-	if kind == "guarded" {
-		// a statement about the ghost lock state: assuming it after a failed check would contradict what the path knows
+	if kind == "guarded" || goal == "false" {
+		// a statement about the ghost lock state, or a "this point must not be reached" obligation: assuming it after the
+		// check would contradict what the path knows and make everything behind it vacuous
 		return
 	}
-	st.assume(goal)
+	// (a contained panic ends the path: behind a no-panic point the condition itself holds, not only the weaker
+	// "or no lock would be left held" that was checked)
+	st.assume(cont)
 	if st.facts == nil {
 		st.facts = map[string]bool{}
 	}
 	st.facts[goal] = true
+	st.facts[cont] = true
 }
 
 // locksCoveredByDefers: every mutex acquired on this path is either free now or has a matching deferred
@@ -796,7 +808,7 @@ func (vf *VerifyFunc) enterBlock(st *State, fr *Frame, b *ssa.BasicBlock) bool {
 	back := b.Dominates(from)
 	where := st.pos(b.Instrs[len(b.Instrs)-1])
 	if back {
-		if top && vf.fc != nil && vf.fc.HasMod {
+		if top && vf.fc != nil && vf.fc.HasMod && !vf.fc.Flags["trustedframe"] {
 			vf.checkFrame(st, where, "frame.loop")
 		}
 		for i, c := range invs {
